@@ -14,7 +14,7 @@ DEFAULT = dict(
     w_connect=6, w_claim=8, w_allocate=4, w_release=5, w_open=8, w_add=10, w_close=7, w_list=3, w_ping=1,
     w_malformed=3, w_drop=4, w_sweep=2, w_restart=1, w_crash=0, w_fault=0, w_reconnect=4, w_bigjump=1,
     usage=None, blur=None, allow_list=None, int_ids=False, moods=["happy", "lonely", "errory", "scary", "weird", None],
-    extra_keys=True, quiesce=False, timer=False, welcome=False, start=8000, period=2400, p_fault=0.0,
+    p_badcv=0.0, extra_keys=True, quiesce=False, timer=False, welcome=False, start=8000, period=2400, p_fault=0.0,
 )
 
 
@@ -95,6 +95,9 @@ class Gen(object):
                 msg["client_version"] = [self.r.choice(["python", "rust"]), self.r.choice(["0.1", "9.9"])]
             elif q < 0.35:
                 msg["client_version"] = [None, "x", "junk"]
+            elif q < 0.35 + self.p.get("p_badcv", 0.0):
+                # outside the protocol's domain: Python raises while indexing it
+                msg["client_version"] = self.r.choice([None, ["x"], [], {"a": 1}, "p"])
             self.recv(c, msg)
             self.conns[c].update(app=app, side=side)
         return c
